@@ -21,3 +21,4 @@ _reg("C12")
 _reg("C38")
 _reg("C14")
 _reg("C15")
+_reg("C16")
